@@ -369,10 +369,14 @@ func (w *swalk) local(name string) bool {
 }
 
 func (w *swalk) declare(name string, t *Ty, kind string) {
+	again := w.scopes[len(w.scopes)-1][name]
 	w.scopes[len(w.scopes)-1][name] = true
 	d := w.gl[name]
 	if d == nil {
 		return
+	}
+	if again {
+		w.tag("BUG_redeclared_in_its_scope")
 	}
 	w.tag("shadow_by_" + kind)
 	if d.Const {
